@@ -204,12 +204,11 @@ impl MonthCode {
             PartialDate {
                 month: Some(month),
                 month_code: None,
-                calendar,
                 ..
             } => {
-                let month_code = month_to_month_code(*month)?;
-                month_code.validate(calendar)?;
-                Ok(month_code)
+                // NOTE: The code of an ordinal month depends on the year; this one only stands
+                // in for it until the calendar resolves the position (see `Calendar::icu_codes`).
+                month_to_month_code(*month)
             }
             PartialDate {
                 month_code: Some(month_code),
